@@ -115,14 +115,18 @@ func DigestPowershell(r io.Reader, style PsSigStyle, hash crypto.Hash) (*PsDiges
 			return nil, err
 		}
 		if line == first {
-			// remove EOL from previous line
+			// remove EOL from previous line. It belongs to the signature block
+			// only if it is the CRLF that a signer puts there; anything else is
+			// script text that the signature does not cover.
+			eol := "\r\n"
 			if isUtf16 {
-				saved = saved[:len(saved)-4]
-				sigSize = 4
-			} else {
-				saved = saved[:len(saved)-2]
-				sigSize = 2
+				eol = toUtf16(eol)
 			}
+			if !strings.HasSuffix(saved, eol) {
+				return nil, errors.New("malformed powershell signature")
+			}
+			saved = saved[:len(saved)-len(eol)]
+			sigSize = int64(len(eol))
 			// count the size of the signature
 			sigSize += int64(len(line))
 			n, err := io.Copy(io.Discard, br)
